@@ -164,8 +164,14 @@ pub const SETUP_TASK: u8 = 3;
 pub const SWEEP_TASK: u8 = 4;
 pub const MAX_KEYS: u8 = 4;
 
+/// Cache key of pool key `k`. The hot key (0) and key 2 carry dots, as the keys of real callers do
+/// (`cdn/.../<hash>.index`, version strings): DiskCache derives temporary file names from the key.
 pub fn key_name(k: u8) -> String {
-    format!("key{k}")
+    match k {
+        0 => "key0.index".into(),
+        2 => "v1.15.7".into(),
+        _ => format!("key{k}"),
+    }
 }
 
 /// Value written by op `opi` of task `task` (setup = task 3): one tag byte
